@@ -222,6 +222,67 @@ def obligations(tier):
                 cx.close(got, exp, label='cirq.final_state_vector')
 
         obs.append(Obligation(f'simulate{nops}.{first}', body, twin=lambda cx, b=body: b(cx, wrong=True), opts={'weight': 10, 'max_paths': 200000}, desc=f'Simulator.simulate / simulate_moment_steps (split_untangled_states on/off, permuted qubit order), Circuit.final_state_vector, cirq.final_state_vector, DensityMatrixSimulator on every {nops}-op circuit starting with {first}; initial state = every basis index or a fully SYMBOLIC state vector'))
+    # ---- ClassicalStateSimulator on reversible classical circuits: symbolic classical bits ---------------------
+    def classical_menu():
+        xor2 = cirq.SumOfProducts([[0, 1], [1, 0]])
+        eq2 = cirq.SumOfProducts([[0, 0], [1, 1]])
+        return [
+            ('X', cirq.X, 1), ('CNOT', cirq.CNOT, 2), ('SWAP', cirq.SWAP, 2), ('TOFFOLI', cirq.TOFFOLI, 3), ('CSWAP', cirq.CSWAP, 3),
+            ('X.c0', cirq.X.controlled(control_values=[0]), 2), ('X.c(01)', cirq.X.controlled(control_values=[(0, 1)]), 2),
+            ('X.c10', cirq.X.controlled(2, control_values=[1, 0]), 3), ('X.xor', cirq.ControlledGate(cirq.X, control_values=xor2), 3),
+            ('X.eq', cirq.ControlledGate(cirq.X, control_values=eq2), 3), ('SWAP.c0', cirq.ControlledGate(cirq.SWAP, control_values=[0]), 3),
+            ('CNOT.c1', cirq.ControlledGate(cirq.CNOT, control_values=[1]), 3), ('perm2', cirq.QubitPermutationGate([1, 0]), 2),
+            ('perm3', cirq.QubitPermutationGate([2, 0, 1]), 3), ('perm3b', cirq.QubitPermutationGate([1, 2, 0]), 3), ('I', cirq.I, 1),
+        ]
+
+    CM = classical_menu()
+
+    def classical_body(cx, wrong=False, first=0):
+        from cirq.sim.classical_simulator import ClassicalBasisSimState
+        from oracles import pauli as OPP
+        from symx.sint import SBool
+
+        n = 3
+        qs = cirq.LineQubit.range(n)
+        seq = [first, cx.choose('g1', len(CM))]
+        ops = []
+        for i, gi in enumerate(seq):
+            name, g, k = CM[gi]
+            places = list(itertools.permutations(range(n), k))
+            pl = places[cx.choose(f'pl{i}', len(places))]
+            ops.append(g.on(*[qs[a] for a in pl]))
+        bits = [cx.bool(f'b{i}') for i in range(n)]
+        st = ClassicalBasisSimState(initial_state=list(bits), qubits=qs)
+        for op in ops:
+            cirq.act_on(op, st)
+        got = list(st._state.basis)
+        # oracle: the permutation of basis states defined by the operation matrices (big-endian)
+        table = {}
+        U = cirq.Circuit(ops).unitary(qubit_order=qs, qubits_that_should_be_present=qs)
+        for x in range(2**n):
+            y = int(np.argmax(np.abs(U[:, x])))
+            assert abs(abs(U[y, x]) - 1) < 1e-9
+            inb = tuple((x >> (n - 1 - j)) & 1 for j in range(n))
+            outb = tuple((y >> (n - 1 - j)) & 1 for j in range(n))
+            table[inb] = (outb, 0)
+        if cx.mode == 'concrete':
+            exp = [bool(v) for v in table[tuple(int(bool(b)) for b in bits)][0]]
+            conds = [bool(g_) == (e != (wrong and j == 0)) for j, (g_, e) in enumerate(zip(got, exp))]
+            cx.check(all(conds), label='ClassicalStateSimulator final bits')
+        else:
+            exp = OPP.sym_lookup(bits, table, n)[:n]
+            acc = None
+            for j, (g_, e) in enumerate(zip(got, exp)):
+                if isinstance(g_, (bool, np.bool_, int, np.integer)):
+                    g_ = SBool(bool(g_))
+                if wrong and j == 0:
+                    e = ~e
+                c = g_ == e
+                acc = c if acc is None else (acc & c)
+            cx.check(acc, label='ClassicalStateSimulator final bits')
+
+    for fi, (fname, _g, _k) in enumerate(CM):
+        obs.append(Obligation(f'classical.{fname}', lambda cx, fi=fi: classical_body(cx, first=fi), twin=lambda cx, fi=fi: classical_body(cx, wrong=True, first=fi), opts={'weight': 3}, desc=f'ClassicalBasisSimState (ClassicalStateSimulator) on every 2-op circuit starting with {fname} over a 16-gate reversible menu (X, CNOT, SWAP, TOFFOLI, CSWAP, controlled gates with product-of-sums and sum-of-products control values, QubitPermutationGate), every placement on 3 qubits, SYMBOLIC classical input bits: final bits equal the permutation defined by the operation matrices'))
     return obs
 
 
@@ -293,6 +354,7 @@ def main(tier, seed=0, replay=None, only=None, procs=None):
         'amplitude_box': [-1, 1],
         'qubit_orders': [(0, 1, 2), (2, 0, 1), (1, 0, 2)],
         'tolerance': 1e-7,
-        'outside': ['complex64 rounding', 'more than 3 wires', 'qudits (covered for single ops in C04)', 'ClassicalStateSimulator', 'simulate_sweep prefix reuse (C10)', 'renormalisation inside StateVectorTrialResult.final_state_vector'],
+        'classical_simulator': '16-gate reversible menu, every ordered pair and placement on 3 qubits, symbolic input bits',
+        'outside': ['complex64 rounding', 'more than 3 wires', 'qudits (covered for single ops in C04)', 'simulate_sweep prefix reuse (C10)', 'renormalisation inside StateVectorTrialResult.final_state_vector'],
     }
     return run_check(PID, tier, 'checks.C01', SHIMS, LEVEL, BASE_ASSUMPTIONS, bounds, seed=seed, replay=replay, only=only, procs=procs)
